@@ -37,6 +37,10 @@ def instants(r, tier):
             out.append(_dt.date(y, *md))
         if spec.is_leap(y):
             out.append(_dt.date(y, 2, 29))
+    # year edges of every kind of year: 29 Dec .. 3 Jan for each of the 14 calendars (week 00, week 52/53 of both counts)
+    for y in (2017, 2018, 2019, 2020, 2021, 2022, 2023, 2024, 2025, 2026, 2027, 2028, 2032, 2036, 2040, 2044, 2000, 2012):
+        for md in ((12, 29), (12, 30), (12, 31), (1, 1), (1, 2), (1, 3), (1, 4)):
+            out.append(_dt.date(y, *md))
     res = []
     times = [(0, 0, 0, 0), (12, 0, 0, 0), (23, 59, 59, 999999), (9, 5, 7, 10), (10, 10, 10, 100000), (13, 50, 20, 5), (1, 30, 0, 123456), (11, 59, 59, 0)]
     for d in out:
